@@ -5,7 +5,6 @@ import (
 	"errors"
 	"fmt"
 	"reflect"
-	"strings"
 	"time"
 
 	hydraidepbgo "github.com/hydraide/hydraide/sdk/go/hydraidego/v3/hydraidepbgo"
@@ -411,12 +410,13 @@ func populateCatalogModelFromPatchedExpired(entry *hydraidepbgo.PatchedExpiredTr
 		if !ok {
 			continue
 		}
-		switch {
-		case strings.Contains(tag, tagKey):
+		head, _ := parseHydraideTag(tag)
+		switch head {
+		case tagKey:
 			if v.Elem().Field(i).Kind() == reflect.String {
 				v.Elem().Field(i).SetString(entry.GetKey())
 			}
-		case strings.Contains(tag, tagExpireAt):
+		case tagExpireAt:
 			if entry.ExpiredAt != nil {
 				field := v.Elem().Field(i)
 				if field.Type() == reflect.TypeOf(time.Time{}) {
